@@ -3,33 +3,38 @@ import DeltaModel.HeaderWrite
 The generated body of `write_generic_diff_header_header_line` does what `Machine.writeGeneric` says, for every
 configuration and every machine: same rows in the same order, same `mode_info` afterwards.
 -/
+-- the simp sets name more than today's body needs, so that harmless rewrites of the Rust function still go through
+set_option linter.unusedSimpArgs false
 namespace HeaderWrite
 open Machine Headers Generated.HeaderWrite
 
-/-- what the generated body leaves: understood; nothing written and `mode_info` untouched under an omitted file style
-(outside color-only mode); otherwise the blank line (outside color-only mode), the header drawn with the mode
-information as addendum, and `mode_info` empty -/
-theorem run_eq (cfg : Cfg) (mi : Str) :
-    run cfg mi =
-      if cfg.fileStyle.isOmitted ∧ ¬ cfg.colorOnly then { modeInfo := mi }
-      else { modeInfo := [], drawFn := true,
-             out := (if cfg.colorOnly then [] else [Ev.blank]) ++ [Ev.draw mi] } := by
+/-- what the generated body leaves: every statement understood; nothing written and `mode_info` untouched under an
+omitted file style (outside color-only mode); otherwise the blank line (outside color-only mode), then the header drawn
+with the mode information as addendum, and `mode_info` empty. (Stated on the three observable fields, so that a
+rewrite which only introduces a local - `let info = std::mem::take(mode_info)` before the draw - still satisfies it.) -/
+theorem run_spec (cfg : Cfg) (mi : Str) :
+    (run cfg mi).understood = true ∧
+      (run cfg mi).modeInfo = (if cfg.fileStyle.isOmitted ∧ ¬ cfg.colorOnly then mi else []) ∧
+      (run cfg mi).out = (if cfg.fileStyle.isOmitted ∧ ¬ cfg.colorOnly then []
+                          else (if cfg.colorOnly then [] else [Ev.blank]) ++ [Ev.draw mi]) := by
   unfold run body
-  cases ho : cfg.fileStyle.isOmitted <;> cases hc : cfg.colorOnly <;> cases mi <;>
-    simp [execStmts, execStmt, evalCond, evalA, ho, hc]
+  cases ho : cfg.fileStyle.isOmitted <;> cases hc : cfg.colorOnly <;> cases hr : cfg.fileStyle.isRaw <;> cases mi <;>
+    simp [execStmts, execStmt, evalCond, evalA, lookup, notUnderstood, ho, hc, hr]
 
-theorem run_understood (cfg : Cfg) (mi : Str) : (run cfg mi).understood = true := by
-  rw [run_eq]; split <;> rfl
+theorem run_understood (cfg : Cfg) (mi : Str) : (run cfg mi).understood = true := (run_spec cfg mi).1
 
 theorem run_modeInfo (cfg : Cfg) (mi : Str) :
-    (run cfg mi).modeInfo = if cfg.fileStyle.isOmitted ∧ ¬ cfg.colorOnly then mi else [] := by
-  rw [run_eq]; split <;> rfl
+    (run cfg mi).modeInfo = if cfg.fileStyle.isOmitted ∧ ¬ cfg.colorOnly then mi else [] := (run_spec cfg mi).2.1
+
+theorem run_out (cfg : Cfg) (mi : Str) :
+    (run cfg mi).out = if cfg.fileStyle.isOmitted ∧ ¬ cfg.colorOnly then []
+                       else (if cfg.colorOnly then [] else [Ev.blank]) ++ [Ev.draw mi] := (run_spec cfg mi).2.2
 
 /-- **the generated body is the model's `writeGeneric`** -/
 theorem apply_eq_writeGeneric (cfg : Cfg) (m : M) (text raw : Str) :
     apply cfg m text raw = writeGeneric cfg m text raw := by
   unfold apply writeGeneric
-  rw [run_eq]
+  rw [run_modeInfo, run_out]
   by_cases h : cfg.fileStyle.isOmitted ∧ ¬ cfg.colorOnly
   · simp only [h, direct]
     rfl
